@@ -22,7 +22,7 @@ ASSUMPTIONS = [
 
 BASE = datetime.datetime(2001, 1, 1)
 OBS0 = datetime.datetime(2000, 1, 3)
-NDATES = 40
+NDATES = 40        # the machine's dates; the flat tie check uses up to 150
 DAY = datetime.timedelta(1)
 H12 = datetime.timedelta(hours=12)
 MAXSTAMP = 5
@@ -168,7 +168,7 @@ class Store(object):
 # a flat, cheaper form of the same check aimed at the tie-break among publications sharing a stamp in a large store
 @st.composite
 def _tie_case(draw):
-    n = draw(st.integers(17, 40))
+    n = draw(st.one_of(st.integers(17, 40), st.integers(17, 40), st.integers(17, 40), st.sampled_from([64, 150])))
     nver = draw(st.integers(2, 5))
     versions = []
     for k in range(nver):
